@@ -32,6 +32,10 @@ POSITIONS = [
     ("device", "na", "SOUND {v} , 1"),
     ("device-str", "sz", "PLAY {v}"),
     ("for", "n", "FOR {v} = 1 TO 2 : NEXT {v}"),
+    ("for-start", "na", "FOR I = {v} TO 9 : NEXT I"),
+    ("for-end", "na", "FOR I = 1 TO {v} : NEXT I"),
+    ("for-step", "na", "FOR I = 1 TO 9 STEP {v} + 1 : NEXT I"),
+    ("for-step-str", "sz", "FOR I = 1 TO 9 STEP LEN( {v} ) + 1 : NEXT I"),
     ("if-cond", "nsaz", "IF {cmp} THEN PRINT 1"),
     ("ifelse-cond", "nsaz", "IF {cmp} THEN PRINT 1 ELSE PRINT 2"),
     ("varptr", "nsaz", "Z = VARPTR( {v} )"),
@@ -367,7 +371,7 @@ def multi_dim_cases():
                     body.append(use)
                 text = "".join(f"{10 * (i + 1)} {b}\n" for i, b in enumerate(body))
                 for storage in (32, 80):
-                    for cfg in ({}, {"A$": 100}, {"B$": 100, "M$()": 120, "C$": 200, "N$()": 90}):
+                    for cfg in ({}, {"A$": 100}, {"B$": 100}, {"B$": 100, "M$()": 120, "C$": 200, "N$()": 90}):
                         for init in (False, True):
                             out.append({"text": text, "storage": storage, "cfg": cfg, "init": init, "groups": len(groups), "layout": layout})
     return out
